@@ -57,7 +57,8 @@ def run(chk: Check) -> None:
                kind='pos-persisted', expr='_pos')
     for name in ('_BlockStepper', '_IfStepper', '_WhileStepper'):
         c = prog.cls(f'workchains.{name}')
-        sf, lf = prog.view(c.vmethods.get('save_instance_state')), prog.view(c.vmethods.get('load_instance_state'))
+        from .common import method_in_chain
+        sf, lf = method_in_chain(prog, c, 'save_instance_state'), method_in_chain(prog, c, 'load_instance_state')
         chk.need(sf is not None and lf is not None, f'{name} lost its save/load_instance_state')
         sb, lb = saved_bindings(ctx, sf), loaded_bindings(ctx, lf)
         keys = [k for k, attrs in sb.items() if '_child_stepper' in attrs and '_child_stepper' in lb.get(k, set())]
